@@ -94,6 +94,9 @@ def api_job(job):
     pres = kw.pop("presidential", False)
     rng = random.Random(seed)
     surge = kw.pop("surge", False)
+    if surge and kw.get("_tfs"):
+        surge = kw.pop("_tfs")
+    kw.pop("_tfs", None)
     case = gen.gen_case(rng, pi_method="bootstrap", alphas=[0.6, 0.8, 0.95], **kw)
     if surge:
         # a county whose precincts are all 85-95% in with a turnout surge: more votes already counted than the model predicts in total
@@ -103,12 +106,13 @@ def api_job(job):
                 by_county.setdefault((b["postal_code"], b["county_fips"]), []).append(b)
         big = [k for k, v in by_county.items() if len(v) >= 3]
         if big:
-            key = rng.choice(sorted(big))
+            lean = lambda k: abs(sum(b["baseline_dem"] - b["baseline_gop"] for b in by_county[k])) / max(1, sum(b["baseline_dem"] + b["baseline_gop"] for b in by_county[k]))  # noqa: E731
+            key = max(sorted(big), key=lean)          # the most lopsided county: a wrong turnout moves its normalised margin most
             ids = {b["geographic_unit_fips"] for b in by_county[key]}
             bl = set(case["params"]["model_parameters"].get("unit_blocklist", []))
             case["feed"] = [f for f in case["feed"] if f["geographic_unit_fips"] not in ids]
             for b in by_county[key]:
-                case["feed"].append(gen.live_row(rng, b, rng.choice([85, 90, 95]), tf=rng.choice([1.4, 1.5, 1.7])))
+                case["feed"].append(gen.live_row(rng, b, rng.choice([85, 90, 95]), tf=rng.choice(surge if isinstance(surge, list) else [2.0, 2.5, 3.0])))
             case["params"]["model_parameters"]["unit_blocklist"] = sorted(bl - ids)
     if pres:
         # the (rarely used) correction from the presidential race of the same election: its files come from an in-memory stand-in
@@ -269,7 +273,7 @@ def run(chk):
             kw["office"] = "H"
         if i % 4 == 2:
             kw["model_parameters"] = {"lambda_": [0.0, 1.0, 50.0][i % 3]}
-        if i % 6 == 5:
+        if i % 6 == 5 or i == 1:
             kw.update({"office": "S", "unit_type": "precinct", "surge": True, "n_unexpected": 0, "threshold": 100, "n_units": 100,
                        "aggregates": ["postal_code", "county_fips", "unit"], "special": False})
         if i % 6 == 3:
